@@ -250,3 +250,15 @@ func init() {
 		verif.Assert(false, "SELF reachability twin")
 	}
 }
+
+var selfRaceCounter int
+
+func init() {
+	// SELFRACE: two logical threads write one variable without synchronisation;
+	// the happens-before monitor must report it (vacuity guard for C06).
+	setups["SELFRACE"] = func(it *Item) any { return &reCtx{} }
+	runs["SELFRACE"] = func(c any, it *Item) {
+		verif.Par(func() { selfRaceCounter++ }, func() { selfRaceCounter++ })
+		verif.Reach("match")
+	}
+}
